@@ -160,7 +160,8 @@ Definition stream_of (out : list (list Z)) : list report :=
                      end) out.
 Definition recorder_rec (bc : bcase) (out : list (list Z)) : list (list Z) :=
   let M := c_size (bc_cfg bc) in
-  match rec_fold M (map (fun w => length (bw_code w)) (bc_ws bc)) false rec_empty (stream_of out) with
+  (* bit8: SetRecordRead(true) *)
+  match rec_fold M (map (fun w => length (bw_code w)) (bc_ws bc)) (flag (bc_flags bc) 8) rec_empty (stream_of out) with
   | None => []
   | Some r => [[13] ++ flat_map (fun a => let x := rec_get r a in [Z.of_N (fst x); snd x]) (nseq M)]
   end.
